@@ -1,4 +1,5 @@
 """C08 Reordering"""
+import esort
 import ewho
 import ecanon
 import elin
@@ -26,5 +27,9 @@ def run(ctx):
                 "primitives only from gc / try_remove_node / level views, gated by reorder_gc_prepared / "
                 "allow_node_removal; level_swap uses the unchecked insertions only.")
     ewho.run(ctx, F)
+    ctx.explain("E-PERM: the level-permutation loop of set_var_order_common advances its position counter only on "
+                "the `element already in place` edge (loop invariant: all earlier positions are final) and swaps "
+                "level views, to_pre and target_order together.")
+    esort.run(ctx, F)
     ctx.not_decided = ("that functions are preserved, that the requested order is reached with minimal swaps, "
                        "non-overlap of concurrent swaps (runtime indices)")
